@@ -7,6 +7,7 @@ import (
 	"fmt"
 	"go/ast"
 	"go/token"
+	"go/types"
 	"os"
 	"reflect"
 	"strings"
@@ -302,4 +303,85 @@ func main() {
 		}
 	}
 	o.Def("hookPoints", "List String", "["+strings.Join(hooks, ", ")+"]")
+
+	// the command layer (C13): which variables the flags of `dawn` and of `dawn build` are bound to, which function the bare
+	// command runs, and what the build command passes to loadProject and to run
+	cliFlagVars := func(f *lib.File, cmd string) []string {
+		var out []string
+		ast.Inspect(f.AST, func(n ast.Node) bool {
+			call, ok := n.(*ast.CallExpr)
+			if !ok || len(call.Args) == 0 {
+				return true
+			}
+			sel, ok := call.Fun.(*ast.SelectorExpr)
+			if !ok || !strings.Contains(sel.Sel.Name, "Var") {
+				return true
+			}
+			recv, ok := sel.X.(*ast.CallExpr)
+			if !ok {
+				return true
+			}
+			rs, ok := recv.Fun.(*ast.SelectorExpr)
+			if !ok || rs.Sel.Name != "Flags" {
+				return true
+			}
+			if id, ok := rs.X.(*ast.Ident); ok && id.Name == cmd && len(call.Args) >= 2 {
+				name := "?"
+				if lit, ok := call.Args[1].(*ast.BasicLit); ok {
+					name = strings.Trim(lit.Value, "\"")
+				}
+				out = append(out, lib.LeanString(name+"="+types.ExprString(call.Args[0])))
+			}
+			return true
+		})
+		return out
+	}
+	callArgs := func(f *lib.File, recv, method string) []string {
+		out := []string{}
+		found := false
+		ast.Inspect(f.AST, func(n ast.Node) bool {
+			call, ok := n.(*ast.CallExpr)
+			if !ok || found {
+				return true
+			}
+			if sel, ok := call.Fun.(*ast.SelectorExpr); ok && sel.Sel.Name == method {
+				if id, ok := sel.X.(*ast.Ident); ok && id.Name == recv {
+					found = true
+					for _, a := range call.Args {
+						out = append(out, lib.LeanString(types.ExprString(a)))
+					}
+				}
+			}
+			return true
+		})
+		if !found {
+			out = append(out, lib.LeanString("(no such call)"))
+		}
+		return out
+	}
+	rootF, err1 := lib.Parse(*repo, "cmd/dawn/root.go")
+	buildF, err2 := lib.Parse(*repo, "cmd/dawn/build.go")
+	if err1 != nil || err2 != nil {
+		o.Fail("parse cmd/dawn: %v %v", err1, err2)
+		return
+	}
+	rootRunE := "(not found)"
+	ast.Inspect(rootF.AST, func(n ast.Node) bool {
+		if vs, ok := n.(*ast.ValueSpec); ok && len(vs.Names) == 1 && vs.Names[0].Name == "rootCmd" && len(vs.Values) == 1 {
+			ast.Inspect(vs.Values[0], func(m ast.Node) bool {
+				if kv, ok := m.(*ast.KeyValueExpr); ok {
+					if k, ok := kv.Key.(*ast.Ident); ok && k.Name == "RunE" {
+						rootRunE = types.ExprString(kv.Value)
+					}
+				}
+				return true
+			})
+		}
+		return true
+	})
+	o.Def("cliRootRunE", "String", lib.LeanString(rootRunE))
+	o.Def("cliRootFlagVars", "List String", "["+strings.Join(cliFlagVars(rootF, "rootCmd"), ", ")+"]")
+	o.Def("cliBuildFlagVars", "List String", "["+strings.Join(cliFlagVars(buildF, "buildCmd"), ", ")+"]")
+	o.Def("cliBuildLoadArgs", "List String", "["+strings.Join(callArgs(buildF, "work", "loadProject"), ", ")+"]")
+	o.Def("cliBuildRunArgs", "List String", "["+strings.Join(callArgs(buildF, "work", "run"), ", ")+"]")
 }
